@@ -30,6 +30,9 @@ FIRST = {  # what happened on the FIRST run against each change, before any stre
     "C09_r2_1": "timed out (a cached verifier accumulates checks, non-revealing cases get slow) -> cheap cases first, red runs stop at 10 violations",
     "C14_r2_1": "missed by C14 (each concrete generation ran in its own process; C10's manager history caught it) -> warm-up generation in the same process",
     "C20_r2_2": "inconclusive (Path.read_text bypassed the in-memory open stub) -> templates are written to a real scratch tree",
+    "C13_1": "missed (in every family enum the largest value also had the alphabetically last name) -> enums whose maximum is neither last declared nor last by name",
+    "C13_3": "caught (the patch had to be re-based by hand: the fix for signed JSON numbers touched the same line)",
+    "C13_r2_2": "missed (no field id above 255 in the family) -> ids 1 / 256 / 65537, whose order changes when narrowed to 8 or 16 bits",
     "C05_2": "would have been missed (no plain signal named like an earlier binding's multiplexer) -> schema added before the run",
 }
 
